@@ -242,6 +242,15 @@ func c15(r *Report) {
 	})
 
 	r.Guard("C15.R2", "loggers and snapshots do not edit the message: only Body is ever assigned, headers and trailers are not modified", func() {
+		// the text logger fails an exchange only where it does today (snapshot and reader
+		// set-up): an error it returns becomes a Warning header on the forwarded message
+		for _, n := range []string{"Logger.ModifyRequest", "Logger.ModifyResponse"} {
+			errorsReturnedRule(r, r.W.Fn("martianlog", n), true)
+		}
+		for _, n := range []string{"MessageView.SnapshotRequest", "MessageView.SnapshotResponse", "MessageView.BodyReader"} {
+			errorsReturnedRule(r, r.W.Fn("messageview", n), false)
+		}
+
 		for _, pkg := range loggerPkgs {
 			bad := 0
 			for _, f := range w.Funcs(pkg) {
